@@ -132,7 +132,13 @@ class GWCSAPIMixin(BaseHighLevelWCS, BaseLowLevelWCS):
         be returned in the ``(x, y)`` order, where for an image, ``x`` is the
         horizontal coordinate and ``y`` is the vertical coordinate.
         """
-        world_arrays = self._add_units_input(world_arrays, self.backward_transform, self.output_frame)
+        try:
+            backward_transform = self.backward_transform
+        except NotImplementedError:
+            # no analytic inverse: ``invert`` falls back on the iterative one
+            pass
+        else:
+            world_arrays = self._add_units_input(world_arrays, backward_transform, self.output_frame)
 
         result = self.invert(*world_arrays, with_units=False)
 
